@@ -158,6 +158,8 @@ def _phase_runs(t, phase):
         return True
     if k in ('error_setup', 'skip_setup'):
         return False
+    if k == 'error_sig' and phase in ('body', 'body_end'):
+        return False      # the call of the test method itself raises: its body never runs (tearDown still does)
     return True
 
 
